@@ -3,8 +3,8 @@ Driver modes of C15 (no public call has undefined behaviour).  Each mode wraps
 the mode of the work-package that owns the model (same line syntax, same text)
 and routes the calls through the `step` dispatchers the C15 theorems are about:
 
-  `c15tv1`  tracks 1.x  = `tracksv1`  + rmtrack, get <t> valid|id|copy        (Api/C15TracksV1.lean)
-  `c15tv2`  tracks 2.x  = `tracksv2`  + rmtrack, get <t> valid|id|copy        (Api/C15TracksV2.lean)
+  `c15tv1`  tracks 1.x  = `tracksv1`  + rmtrack, get <t> valid|id|copy        (Api/GuardedTracksV1.stepG over Api/C15TracksV1.step)
+  `c15tv2`  tracks 2.x  = `tracksv2`  + rmtrack, get <t> valid|id|copy        (Api/GuardedTracksV2.stepG over Api/C15TracksV2.step)
   `c15cv1`  crates 1.x  = `cratesv1`  + crate.q / db.q / get <t> valid|id|copy (Api/CratesV1.lean)
   `c15cv2`  crates 2.x  = `cratesv2`  + crate.q <c> copy, get <t> valid|id|copy; the ordered queries and
             descendants() answered by the guarded walks of Api/GuardedV2.lean (fuel exhaustion = `ub`)
@@ -16,6 +16,8 @@ import EngineModel.Driver.Cmds.CratesV2
 import EngineModel.Api.C15TracksV1
 import EngineModel.Api.C15TracksV2
 import EngineModel.Api.GuardedV2
+import EngineModel.Api.GuardedTracksV1
+import EngineModel.Api.GuardedTracksV2
 
 open EngineModel EngineModel.Text
 
@@ -54,7 +56,7 @@ def outText : Res Out → String
 
 def step (st : Drv.T2.St) (cmd : String) (args : List String) : Drv.T2.St × String :=
   let run (s : Schema) (op : Op) : Drv.T2.St × Res Out :=
-    let p := Api.C15TracksV2.step Drv.T2.hwOps s st.db op
+    let p := Api.GuardedTracksV2.stepG Drv.T2.hwOps s st.db op
     ({ st with db := p.1 }, p.2)
   match st.schema with
   | none => Drv.T2.step st cmd args
@@ -134,7 +136,7 @@ def step (st : Drv.TracksV1.St) (cmd : String) (args : List String) : Drv.Tracks
   | none => Drv.TracksV1.step st cmd args
   | some d =>
   let run (op : Op) : Drv.TracksV1.St × Res Out :=
-    let p := Api.C15TracksV1.step Drv.TracksV1.fops d op
+    let p := Api.GuardedTracksV1.stepG Drv.TracksV1.fops d op
     ({ st with db := some p.1 }, p.2)
   match cmd, args with
   | "mktrack", v :: toks =>
